@@ -1,6 +1,7 @@
 package main
 
 import (
+	"hash/crc32"
 	"fmt"
 	"go/types"
 	"math/big"
@@ -547,17 +548,59 @@ func init() {
 		return true
 	}
 	crc := func(e *Engine, st *State, x *ssa.Call, args []Value) bool {
-		// uninterpreted: a fresh 32-bit value per call site evaluation, memoised per (object, off, len)
+		// CRC32C of concrete bytes is computed; over symbolic bytes it is an uninterpreted value
+		// memoised by content: for a buffer of concrete length the key is the sequence of its
+		// byte terms (so the writer's checksum and the reader's checksum of the same bytes are
+		// the same value), for symbolic-length buffers the key is (object, extent, heap version).
 		sl := args[len(args)-2].(*SliceV)
 		if _, isT := args[len(args)-1].(*PtrV); isT {
 			sl = args[len(args)-2].(*SliceV)
 		}
 		key := "crc:nil"
-		if sl.Obj != nil {
-			key = fmt.Sprintf("crc:%d:%d:%d:%p", sl.Obj.ID, sl.Off.id, sl.Len.id, st.heap[sl.Obj.ID])
-		}
+		var prev *Term
 		if len(args) == 3 {
-			key += fmt.Sprintf(":%d", args[0].(*Term).id)
+			prev = args[0].(*Term)
+		}
+		if sl.Obj != nil {
+			if _, isArr := st.heap[sl.Obj.ID].(*ArrayV); isArr {
+				if _, lenOK := concreteInt(sl.Len); lenOK {
+					elems := e.sliceElems(st, sl)
+					allConst := prev == nil || prev.IsConst()
+					var sb strings.Builder
+					sb.WriteString("crcv")
+					raw := make([]byte, len(elems))
+					for i, el := range elems {
+						t := el.(*Term)
+						fmt.Fprintf(&sb, ":%d", t.id)
+						if t.IsConst() {
+							raw[i] = byte(t.cv.Uint64())
+						} else {
+							allConst = false
+						}
+					}
+					if allConst {
+						init := uint32(0)
+						if prev != nil {
+							init = uint32(prev.cv.Uint64())
+						}
+						setRes(st, x, e.ts.BVInt(32, int64(crc32.Update(init, crc32.MakeTable(crc32.Castagnoli), raw))))
+						return true
+					}
+					key = sb.String()
+				}
+			}
+			if key == "crc:nil" {
+				key = fmt.Sprintf("crc:%d:%d:%d:%p", sl.Obj.ID, sl.Off.id, sl.Len.id, st.heap[sl.Obj.ID])
+			}
+		} else if prev == nil {
+			setRes(st, x, e.ts.BVInt(32, 0))
+			return true
+		} else {
+			setRes(st, x, prev)
+			return true
+		}
+		if prev != nil {
+			key += fmt.Sprintf(":%d", prev.id)
 		}
 		v, ok := e.crcMemo[key]
 		if !ok {
